@@ -305,6 +305,24 @@ pub fn gen_boundary(r: &mut Rng) -> IoCase {
     let mut total = 0usize;
     let target = r.range(70_000, 150_000) as usize;
     let mut i = 0;
+    // second flavour: ids and descriptions made mostly of multi-byte characters, so that some character straddles a
+    // buffer boundary (a reader that validates or converts text per buffer mangles it)
+    let utf8 = r.chance(1, 2);
+    while utf8 && total < target {
+        let chars = ["é", "ß", "漢", "😀", "Ω", "ñ"];
+        let n = r.range(8, 60) as usize;
+        let mut id: Vec<u8> = format!("r{}", i).into_bytes();
+        for _ in 0..n {
+            id.extend_from_slice(r.pick(&chars).as_bytes());
+        }
+        let desc: Option<Vec<u8>> = if r.chance(1, 2) { let mut d = Vec::new(); for _ in 0..r.range(3, 30) { d.extend_from_slice(r.pick(&chars).as_bytes()); } Some(d) } else { None };
+        let len = r.range(1, 40) as usize;
+        let seq = gen::clean_seq(r, len, gen::FLAVORS[0].1);
+        let qual: Vec<u8> = if fastq { vec![b'I'; len] } else { vec![] };
+        total += id.len() + desc.as_ref().map(|d| d.len() + 1).unwrap_or(0) + 2 * len + 6;
+        recs.push(Src { id, desc, seq, qual });
+        i += 1;
+    }
     while total < target {
         let dl = r.range(20, 200) as usize;
         let mark = if fastq { b'@' } else { b'>' };
